@@ -90,24 +90,31 @@ def _q_of(eos, vals):
     return np.array([vp, vm, Tp, Tm, c1, c2, -0.5 * (vp + vm)])
 
 
-def _valid_matching(eos, Tn, tol, branch, v, vals):
-    """Does a returned deflagration/hybrid matching satisfy the junction conditions (C02) and reach Tn (C03)?
-    Returns (ok, info) with info['sens'] the conditioning (or None)."""
+def _valid_matching(eos, Tn, tol, branch, v, vals, template=False):
+    """Does a returned deflagration/hybrid matching satisfy the junction conditions (C02's criterion) and reach Tn
+    ahead of its shock (C03's criterion, oracle integrator)? Returns (ok, info); info['sens'] = conditioning or None.
+    template=True: the closed-form matching satisfies the junction conditions identically, up to rounding - which
+    is amplified where the momentum flux nearly cancels (p_s(T+) -> 0 at the minimal velocity): 64 eps (w+|e|)/scale."""
     vp, vm, Tp, Tm = vals
     res = _resid_vec(eos, vp, vm, Tp, Tm)
     ft = flux_tolerance(eos, branch, tol, v, vp, vm, Tp, Tm)
+    if template:
+        g2p, g2m = 1 / (1 - vp * vp), 1 / (1 - vm * vm)
+        sm = max(eos.w("s", Tp) * g2p * vp * vp + abs(eos.p("s", Tp)), eos.w("b", Tm) * g2m * vm * vm + abs(eos.p("b", Tm)))
+        ft += 64 * EPS * (eos.w("s", Tp) + abs(eos.e("s", Tp)) + eos.w("b", Tm) + abs(eos.e("b", Tm))) / sm
     if not (max(res) <= ft):
         return False, dict(why="nonconserved", resid=float(max(res)), tol=float(ft))
     sh = OH.shock_Tn(eos, v, vp, Tp, rtol=1e-10)
     if sh["kind"] == "incomplete":
         return False, dict(why="oracle-incomplete")
-    sens = O.sensitivity_to_vp(eos, branch, v, vp, Tp, Tm)
+    base = dict(q=_q_of(eos, vals), Tn=float(sh["Tn"]), kind=sh["kind"])
+    sens = O.sensitivity_to_vp(eos, branch, v, vp, Tp, Tm, base=base)
     S = sens["dTn"] * vp / Tn if sens else 50.0
     # C03's tolerance on the temperature ahead of the shock
     t = (8 * (tol["rtol"] + tol["atol"] / vp) * S + 30 * tol["rtol"]) * Tn + 1e-10 * Tn
     if abs(sh["Tn"] - Tn) > t:
         return False, dict(why="shock-misses-Tn", Tn_got=float(sh["Tn"]), tol=float(t))
-    return True, dict(sens=sens, kind=sh["kind"])
+    return True, dict(sens=sens, kind=sh["kind"], Tn_err=float(abs(sh["Tn"] - Tn)), Tn_tol=float(t), resid=float(max(res)), resid_tol=float(ft))
 
 
 def _compare(r, name, eos, Tn, tol, branch, v, ref, got, sens, ref_kind, extra):
@@ -187,6 +194,22 @@ def case_eos(c: dict) -> dict:
 
     hyd.findMatching = full_cached
 
+    tcache: dict = {}
+    tm_orig = tm.findMatching
+
+    def tm_cached(v):  # the template's matching is deterministic too: solve once per velocity
+        k = float(v)
+        if k not in tcache:
+            try:
+                tcache[k] = ("ok", tm_orig(v))
+            except Exception as ex:  # noqa: BLE001
+                tcache[k] = ("exc", ex)
+        if tcache[k][0] == "exc":
+            raise tcache[k][1]
+        return tcache[k][1]
+
+    tm.findMatching = tm_cached
+
     # ---------------------------------------------------------------- Jouguet velocity
     vJf, vJt = float(hyd.vJ), float(tm.vJ)
     jo = O.jouguet(eos, Tn, vJt)
@@ -256,10 +279,7 @@ def case_eos(c: dict) -> dict:
                 r.true(f"{name}:both-return-detonation", False, vw=v, full=fkind, template=tkind, **extra)
                 continue
             vp, vm, Tp, Tm = F
-            res = _resid_vec(eos, vp, vm, Tp, Tm)
-            if max(res) > flux_tolerance(eos, branch, tol, v, vp, vm, Tp, Tm):
-                r.tag("full-solver-nonconserved(D9)")
-                continue
+            # (the known finding D9 concerns deflagrations/hybrids only: detonations are always compared)
             r.tag("detonation")
             # full: brentq on T- -> 4*(atol + rtol T-); v- = sqrt(vpvm/vpovm)(T-): |dv-/dT-| by central differences on the
             # oracle's formula; template: closed form, rounding amplified by the square root 1/sqrt(1 - 4 cb2 vp^2/part^2)
@@ -299,35 +319,39 @@ def case_eos(c: dict) -> dict:
         else:
             r.tag("full-" + fkind)
 
-        t_valid = False
-        if tkind == "ok":
-            tb = "hybrid" if v * v > cb2n else "deflagration"
-            t_valid, tinfo = _valid_matching(eos, Tn, tol, tb, v, T)
-
+        tb = "hybrid" if v * v > cb2n else "deflagration"
         if ref is None:
-            # the full solver is no reference here: ask the oracle's own exact solver (slow)
-            ex = OH.solve_matching(eos, Tn, v, min(vJf, vJt))
-            if ex is not None and abs(ex["Tn_err"]) < 1e-8:
-                E = [ex["vp"], ex["vm"], ex["Tp"], ex["Tm"]]
-                eb = "hybrid" if v * v > cb2n else "deflagration"
-                es = O.sensitivity_to_vp(eos, eb, v, E[0], E[2], E[3])
-                if es is not None:
-                    ref, ref_kind, sens, branch = E, "oracle-exact", es, eb
-                    r.tag("reference-oracle-exact")
+            # The full solver is no reference here. (1) the template's matching is checked directly against the oracle's
+            # junction and shock equations (an exact matching is one that satisfies them); (2) the oracle's own exact
+            # solver (slow) is asked when the template returned nothing valid, and always in the thorough tier.
+            t_valid, tinfo = (False, dict(why=tkind))
+            if tkind == "ok":
+                t_valid, tinfo = _valid_matching(eos, Tn, tol, tb, v, T, template=True)
+                if t_valid:
+                    r.tag("reference-oracle-residual")
+                    r.close(f"{name}:template-junction", tinfo["resid"], 0.0, tinfo["resid_tol"], vw=v, template=T)
+                    r.close(f"{name}:template-reaches-Tn", tinfo["Tn_err"], 0.0, tinfo["Tn_tol"], vw=v, template=T)
+                    if fkind in ("none", "raised"):
+                        r.true(f"{name}:full-returns-matching", False, vw=v, full=fkind, template=T)
+            if (not t_valid) or c.get("exact_always"):
+                ex = OH.solve_matching(eos, Tn, v, min(vJf, vJt))
+                if ex is not None and abs(ex["Tn_err"]) < 1e-8:
+                    E = [ex["vp"], ex["vm"], ex["Tp"], ex["Tm"]]
+                    es = O.sensitivity_to_vp(eos, tb, v, E[0], E[2], E[3])
+                    if es is not None:
+                        ref, ref_kind, sens, branch = E, "oracle-exact", es, tb
+                        r.tag("reference-oracle-exact")
             if ref is None:
-                r.tag("no-reference")
-                # no reference at all; the only disagreement that can be established: one side returns a valid
-                # matching (oracle-verified junction + shock conditions) where the other returns nothing
-                if t_valid and fkind in ("none", "raised"):
-                    r.true(f"{name}:full-returns-matching", False, vw=v, full=fkind, template=T)
+                if not t_valid:
+                    r.tag("no-reference")
+                    if tkind == "ok":
+                        r.tag("template-unverified:" + str(tinfo.get("why")))
                 continue
 
         if tkind != "ok":
             r.tag("template-" + tkind)
             r.true(f"{name}:template-returns-matching", False, vw=v, template_outcome=tkind, template=T, reference=ref_kind, ref=ref, branch=branch)
             continue
-        if ref_kind == "oracle-exact" and fkind in ("none", "raised") and t_valid:
-            r.true(f"{name}:full-returns-matching", False, vw=v, full=fkind, template=T, exact=ref)
 
         _compare(r, name, eos, Tn, tol, branch, v, ref, T, sens, ref_kind, extra)
         r.tag(f"{branch}-vs-{ref_kind}")
@@ -343,11 +367,10 @@ def case_eos(c: dict) -> dict:
                     r.close(f"{name}:{side}-c2=momentumflux", b[1], c2, rt * (abs(c2) + abs(eos.p("s", m[2])) + eos.w("s", Tn) / mu), vw=v)
                     r.close(f"{name}:{side}-boundary-T", [b[2], b[3]], [m[2], m[3]], 0.0, vw=v)
                     r.close(f"{name}:{side}-velocityMid", b[4], -0.5 * (m[0] + m[1]), 4 * EPS, vw=v)
-        else:
-            if bt is not None and bt[0] is not None:
-                c1, c2 = O.boundary_constants(eos, T[0], T[2])
-                r.close(f"{name}:template-c1=-energyflux", bt[0], c1, 64 * EPS * 8 * abs(c1), vw=v)
-                r.close(f"{name}:template-c2=momentumflux", bt[1], c2, 64 * EPS * 8 * (abs(c2) + abs(eos.p("s", T[2])) + eos.w("s", Tn) / mu), vw=v)
+        elif bt is not None and bt[0] is not None:
+            c1, c2 = O.boundary_constants(eos, T[0], T[2])
+            r.close(f"{name}:template-c1=-energyflux", bt[0], c1, 64 * EPS * 8 * abs(c1), vw=v)
+            r.close(f"{name}:template-c2=momentumflux", bt[1], c2, 64 * EPS * 8 * (abs(c2) + abs(eos.p("s", T[2])) + eos.w("s", Tn) / mu), vw=v)
 
     # ---------------------------------------------------------------- efficiency factor
     for name in KAPPA_AT:
@@ -452,6 +475,7 @@ def cases(tier: str) -> list[dict]:
             d = dict(c)
             d["tol"] = tol
             d["id"] = c["id"] + ",tol=" + tol
+            d["exact_always"] = tier == "thorough"
             out.append(d)
     return out
 
@@ -466,11 +490,11 @@ def run(ctx) -> None:
         cs = gen(ctx.tier)
         sel = __import__("os").environ.get("C15_SELECT")  # debugging aid: substring filter on case ids
         if sel:
-            cs = [c for c in cs if sel in c["id"]]
+            cs = [c for c in cs if any(x in c["id"] for x in sel.split("|"))]
         ctx.run_lattice(name, cs, fn, timeout=1500)
         ctx.note("eos_cases", len(cs))
         ctx.note("velocities_per_case", 16)
-    if not ctx.only:
+    if not ctx.only and not __import__("os").environ.get("C15_SELECT"):
         ctx.exhaustive = True
 
 
